@@ -179,44 +179,50 @@ def membersOf (P : Project) (T : Decl) : List Decl :=
 
 def isVarLike (k : DKind) : Bool := k == .var || k == .param
 
-/-- member lookup `name` in the declared type of what `b` resolves to -/
-def memberVia (P : Project) (b : Occ) (name : Name) : Option Decl :=
+/-- the member list consulted for `b.x`: the members of the declared type of the variable `b` resolves to -/
+def memberList (P : Project) (b : Occ) : List Decl :=
   match resolveName P b with
-  | none => none
+  | none => []
   | some v =>
-    if !isVarLike v.kind then none else
+    if !isVarLike v.kind then [] else
     match typeOfDecl P v with
-    | none => none
-    | some T => lookup (membersOf P T) name
+    | none => []
+    | some T => membersOf P T
+
+/-- member lookup `name` in the declared type of what `b` resolves to -/
+def memberVia (P : Project) (b : Occ) (name : Name) : Option Decl := lookup (memberList P b) name
+
+/-- the base occurrence of a member access -/
+def baseOf (P : Project) (o : Occ) : Option Occ :=
+  match o.link with
+  | none => none
+  | some bi => P.occs[bi]?
 
 /-- `references.rs::resolve_field_expr_member` / field access matching of `find_references_to_field`. -/
 def resolveMember (P : Project) (o : Occ) : Option Decl :=
-  match o.link with
+  match baseOf P o with
   | none => none
-  | some bi =>
-    match P.occs[bi]? with
-    | none => none
-    | some b => memberVia P b o.name
+  | some b => memberVia P b o.name
 
 /-- what the callee occurrence of a call denotes -/
 def resolveCallee (P : Project) (c : Occ) : Option Decl :=
   if c.kind == .mem then resolveMember P c else resolveName P c
 
+/-- the parameters a named argument of the call with callee occurrence `c` can name -/
+def paramList (P : Project) (c : Occ) : List Decl :=
+  match resolveCallee P c with
+  | none => []
+  | some callee =>
+    let owner := if callee.kind == .func || callee.kind == .method then some callee else typeOfDecl P callee
+    match owner with
+    | none => []
+    | some ow => (membersOf P ow).filter (fun c => c.kind == .param)
+
 /-- reference semantics of the formal name of a named argument (never consulted by the implementation) -/
 def resolveArg (P : Project) (o : Occ) : Option Decl :=
-  match o.link with
+  match baseOf P o with
   | none => none
-  | some ci =>
-    match P.occs[ci]? with
-    | none => none
-    | some c =>
-      match resolveCallee P c with
-      | none => none
-      | some callee =>
-        let owner := if callee.kind == .func || callee.kind == .method then some callee else typeOfDecl P callee
-        match owner with
-        | none => none
-        | some ow => lookup ((membersOf P ow).filter (fun c => c.kind == .param)) o.name
+  | some c => lookup (paramList P c) o.name
 
 def declById (P : Project) (i : Nat) : Option Decl := P.decls.find? (fun c => c.id == i)
 
@@ -269,6 +275,61 @@ def refsTo (P : Project) (d : Decl) (o : Occ) : Bool :=
   | .typ => isType d.kind && (resolveType P o).map (·.id) == some d.id
   | .mem => !isType d.kind && (resolveMember P o).map (·.id) == some d.id
   | _ => false
+
+/-! ## the guards of the partial theorems (all decidable, all evaluated by the driver) -/
+
+/-- The candidate list searched by the last lookup of `binding P o` (the earlier lookups belong to the
+base / callee / type-name occurrences and are accounted for there). -/
+def finalList (P : Project) (o : Occ) : List Decl :=
+  match o.kind with
+  | .decl => []
+  | .ref => cands P o.file o.scope
+  | .typ => globalView P o.file
+  | .mem => (match baseOf P o with | none => [] | some b => memberList P b)
+  | .arg => (match baseOf P o with | none => [] | some c => paramList P c)
+  | .ctask => (declsIn P (o.link.getD 0)).filter (fun c => c.kind == .task)
+  | .cprog => globalView P o.file
+  | .misc => []
+
+/-- Renaming `d` to `n` leaves the answer of the lookup `(L, k)` unchanged.  `edited` = the occurrence
+that asks is itself renamed.  An edited occurrence must still reach `d` first (nothing called `n` before
+`d`: no capture); an unedited occurrence called `n` must not meet `d` before its own answer (no shadowing). -/
+def stableQ (d : Decl) (n : Name) (L : List Decl) (k : Name) (edited : Bool) : Bool :=
+  if eqv n d.name then true
+  else if edited then (L.takeWhile (fun c => c != d)).all (fun c => !eqv c.name n)
+  else if eqv k n then (L.takeWhile (fun c => !eqv c.name k)).all (fun c => c != d)
+  else true
+
+/-- **NoClash**: no lookup of any occurrence is disturbed by giving `d` the name `n`. -/
+def noClash (P : Project) (d : Decl) (n : Name) : Bool :=
+  P.occs.all (fun o => stableQ d n (finalList P o) o.name (refsTo P d o))
+
+/-- **NoBlind**: every occurrence whose lookup finds `d` is one the implementation reports as a
+reference (excludes the named-argument / program-configuration occurrences bound to `d`). -/
+def noBlind (P : Project) (d : Decl) : Bool :=
+  P.occs.all (fun o => lookup (finalList P o) o.name != some d || refsTo P d o)
+
+/-- structural well-formedness of a project description (checked by the driver for every case) -/
+def wf (P : Project) : Bool :=
+  -- declaration ids are the list positions
+  P.decls.map (·.id) == List.range P.decls.length &&
+  -- type symbols live in the GLOBAL scope only
+  P.decls.all (fun c => !isType c.kind || c.scope == 0) &&
+  -- a member access hangs off a name reference, a named argument off a name reference or a member access
+  P.occs.all (fun o =>
+    (o.kind != .mem || (match baseOf P o with | some b => b.kind == .ref | none => true)) &&
+    (o.kind != .arg || (match baseOf P o with | some c => c.kind == .ref || c.kind == .mem | none => true))) &&
+  -- the declared type of a variable is a type-name occurrence
+  P.decls.all (fun v => match v.tyocc with
+    | none => true
+    | some ti => (match P.occs[ti]? with | some t => t.kind == .typ | none => true))
+
+/-- no two declarations of one scope of one file share a name (an error-free project has no duplicates) -/
+def noDupScope (P : Project) : Bool :=
+  P.decls.all (fun a => P.decls.all (fun b => a == b || !(a.file == b.file && a.scope == b.scope && eqv a.name b.name)))
+
+/-- name-free view of a project: the structure with every occurrence replaced by the id it denotes -/
+def erase (P : Project) : List (OKind × Option Nat) := P.occs.map (fun o => (o.kind, (binding P o).map (·.id)))
 
 /-! ## text layout -/
 
@@ -405,6 +466,15 @@ def rangeAlias (P : Project) : Bool :=
   let ds := (layout P).filter (fun p => p.1.kind == .decl)
   ds.any (fun a => ds.any (fun b => a.2.file != b.2.file && a.2.start == b.2.start && a.2.stop == b.2.stop &&
     eqv a.1.name b.1.name))
+
+/-- A struct-field rename searches member accesses of every file by comparing raw TypeIds that belong
+to different per-file symbol tables (`find_references_to_field_in_context`): a member access of the
+same name on another type may be rewritten too.  The model does not predict that; the region is:
+`d` is a struct field and some member access with the searched name (old name now, new name when
+renaming back) denotes something else. -/
+def fieldX (P : Project) (d : Decl) (n : Name) : Bool :=
+  d.kind == .field &&
+  P.occs.any (fun o => o.kind == .mem && (eqv o.name d.name || eqv o.name n) && bindingId P o != some d.id)
 
 /-- number of occurrences bound to `d` that the implementation never reports as references -/
 def blindRefs (P : Project) (d : Decl) : Nat :=
